@@ -15,4 +15,16 @@ theorem holds_reattach_same_instance (test : Bool) :
       s.outs = [.okAddr 0] ∧ s.addr = some 0 ∧ s.launches = 0 ∧ s.runner = (if test then none else some 0) :=
   reattach_same_instance _ facts_good test
 
+/-- at the current source: along any chain of reattach-from-ReattachConfig in test mode the last client
+is a test-mode client without a handle on the server … -/
+theorem holds_test_chain_never_records_runner (alive : Bool) (es : List Event) (rest : List (List Event)) (s : State)
+    (h : chain Facts.lifecycle (init (.reattach true) alive) es rest = some s) : s.launch = .reattach true ∧ s.runner = none :=
+  test_chain_never_records_runner _ facts_good alive es rest s h
+
+/-- … and the server's liveness is untouched unless it dies by itself -/
+theorem holds_test_chain_server_untouched (alive : Bool) (es : List Event) (rest : List (List Event)) (s : State)
+    (h : chain Facts.lifecycle (init (.reattach true) alive) es rest = some s)
+    (hne : ∀ es' ∈ es :: rest, ∀ e ∈ es', ∀ p, e ≠ .procDies p) : s.procs = (init (.reattach true) alive).procs :=
+  test_chain_server_untouched _ facts_good alive es rest s h hne
+
 end GoPlugin.Instance.C15
